@@ -79,6 +79,15 @@ def sliceAppendList [Inhabited α] (g : Grow) (h : ArrHeap α) (s : Slice) : Lis
   | [] => (h, s)
   | v :: vs => let r := sliceAppend g h s v; sliceAppendList g r.1 r.2 vs
 
+/-- `append(s, vs...)` in one call. -/
+def sliceAppendMany [Inhabited α] (g : Grow) (h : ArrHeap α) (s : Slice) (vs : List α) : ArrHeap α × Slice :=
+  if vs.isEmpty then (h, s)
+  else if s.len + vs.length ≤ s.cap then
+    (updArr h s.arr fun a => overwrite a (s.off + s.len) vs, { s with len := s.len + vs.length })
+  else
+    let c := newCap g h.length s.cap (s.len + vs.length)
+    (h ++ [padTo (cells h s ++ vs) c], { arr := h.length, off := 0, len := s.len + vs.length, cap := c })
+
 /-- `make([]T, len, cap)` filled with the given cells (exact capacity). -/
 def sliceMake [Inhabited α] (h : ArrHeap α) (cs : List α) (cap : Nat) : ArrHeap α × Slice :=
   let c := max cap cs.length
